@@ -73,7 +73,7 @@ impl Scenario for C07S {
         }
     }
     fn rule(&self) -> &'static str {
-        "case = 1..32 routes registered from 1..8 threads on a fresh RouterProxy (or the global ROUTER): callback routes with a drop guard, routes to a new crossbeam receiver, routes to a caller-supplied bounded crossbeam sender with a slow consumer; 0..50 messages per route queued before registration and more in flight afterwards, single/multi-packet; senders dropped or held, some in other sim-processes that die at the k-th system call of their last send; EINTR / short batches in the router's wait; seeded schedule; non-trivial = >=2 routes and (messages queued before registration or >=2 registering threads); distinct = distinct (workload, schedule hash)"
+        "case = 1..32 routes registered from 1..8 threads on a fresh RouterProxy (or the global ROUTER): callback routes with a drop guard, routes to a new crossbeam receiver, routes to a caller-supplied bounded crossbeam sender with a slow consumer; 0..50 messages per route queued before registration and more in flight afterwards (one case in ten: a backlog of 100..272 tiny messages on one route whose senders are all gone before it is registered), single/multi-packet; senders dropped or held, some in other sim-processes that die at the k-th system call of their last send; EINTR / short batches in the router's wait; seeded schedule; non-trivial = >=2 routes and (messages queued before registration or >=2 registering threads); distinct = distinct (workload, schedule hash)"
     }
     fn gen(&self, seed: u64, idx: u64, _tier: Tier, variant: &str) -> Value {
         let mut r = Rng::stream(seed, idx.wrapping_mul(2654435761).wrapping_add(0xC07));
@@ -125,7 +125,20 @@ impl Scenario for C07S {
             }
         }
         sim["faults"] = json!(faults);
-        json!({"sim": sim, "routes": routes, "threads": nthreads, "global": r.chance(1, 8)})
+        let global = r.chance(1, 8);
+        if r.chance(1, 10) {
+            // backlog route: hundreds of tiny messages queued and every sender gone before the route
+            // exists - one wake-up of the router has to drain them all and then see the closure
+            let n = r.range(100, 272);
+            let k = r.below(nroutes) as usize;
+            routes[k]["pre"] = json!((0..n).map(|_| r.range(16, 40)).collect::<Vec<u64>>());
+            routes[k]["post"] = json!([]);
+            routes[k]["drop_before_add"] = json!(true);
+            routes[k]["backlog"] = json!(true);
+            routes[k]["hold"] = json!(false);
+            sim["sndbuf"] = Value::Null;
+        }
+        json!({"sim": sim, "routes": routes, "threads": nthreads, "global": global})
     }
     fn run(&self, p: &Value) -> Outcome {
         let mut out = Outcome::default();
@@ -157,7 +170,17 @@ impl Scenario for C07S {
                     // may block until the router drains it)
                     let tx2 = tx.clone();
                     let mut tx = Some(tx);
-                    if drop_before {
+                    if drop_before && rt["backlog"].as_bool().unwrap_or(false) {
+                        // the whole backlog is sent by a helper (it would block for good if the kernel
+                        // took less than expected); the route is added once the helper is done or stuck
+                        drop(tx2);
+                        let all: Vec<u64> = pre.iter().map(|l| (*l).min(60)).take(300).collect();
+                        let txb = tx.take().unwrap();
+                        sim::spawn(&format!("presender{}", route), None, move || {
+                            route_sender(txb, route, 0, all, false, 0);
+                        });
+                        sim::sleep_ns(50_000_000);
+                    } else if drop_before {
                         // everything is sent and the sender is gone before the route exists
                         // (nobody reads yet: only what fits the socket buffer without a reader)
                         let mut all = pre.clone();
@@ -325,6 +348,17 @@ impl Scenario for C07S {
         out.probe("handled", evs.iter().filter(|e| e.op == "handled").count() as u64);
         out.probe("handlers_dropped", evs.iter().filter(|e| e.op == "handler.dropped").count() as u64);
         out.probe("registered_already_disconnected", routes.iter().filter(|r| r["drop_before_add"].as_bool().unwrap_or(false)).count() as u64);
+        for (i, rt) in routes.iter().enumerate() {
+            if rt["backlog"].as_bool().unwrap_or(false) {
+                let route = i as i64 + 1;
+                let at = evs.iter().find(|e| e.op == "route.inv" && e.a == route).map(|e| e.seq).unwrap_or(u64::MAX);
+                let q = evs.iter().filter(|e| e.op == "send.ok" && e.a == route && e.seq < at).count() as u64;
+                let gone = evs.iter().any(|e| e.op == "drop.ret" && e.a == route && e.seq < at);
+                out.probe("backlog_over_128_all_senders_gone_before_route", (q > 128 && gone) as u64);
+                out.probe("backlog_over_256_all_senders_gone_before_route", (q > 256 && gone) as u64);
+            }
+        }
+        out.probe("backlog_routes", routes.iter().filter(|r| r["backlog"].as_bool().unwrap_or(false)).count() as u64);
         out.probe("global_router", p["global"].as_bool().unwrap_or(false) as u64);
         out.sample = json!({"routes": nroutes, "threads": nthreads, "handled": evs.iter().filter(|e| e.op == "handled").count(), "dropped": evs.iter().filter(|e| e.op == "handler.dropped").count()});
         out
